@@ -122,6 +122,18 @@ def run(ctx):
         res = ctx.tlc_expect_ok("Mask", "Mask_repaired.cfg", timeout=1500, deadlock=False, overrides={"MaxLen": "3"})
         vlib.log("spec Mask_repaired.cfg (D13 off, repaired loop acceptable on every table): %d states, %.0fs"
                  % (res.distinct, res.wall))
+    # the do_if dimension: evaluate-once mechanism accepted, its mutant (re-evaluation per value on the partially
+    # masked event) rejected -- a spec-mutant run: TLC MUST find the violation, otherwise the model is blind to it
+    res = ctx.tlc_expect_ok("MaskDoIf", "MaskDoIf_quick.cfg", timeout=300, deadlock=False,
+                            overrides={"NF": "4"} if thorough else None)
+    vlib.log("spec MaskDoIf_quick.cfg (do_if decided on the original event): %d states, %.0fs" % (res.distinct, res.wall))
+    mut = ctx.tlc("MaskDoIf", "MaskDoIf_mutant.cfg", timeout=300, deadlock=False, name="MaskDoIf/mutant (expected violation)")
+    if mut.ok or mut.violated != "DoIfOnOriginal":
+        raise vlib.Infra("mutant M_DoIfOnOriginalEvent=FALSE was not rejected by TLC (violated=%s): MaskDoIf.tla no longer "
+                         "distinguishes the mechanism" % mut.violated)
+    vlib.log("spec MaskDoIf_mutant.cfg (do_if re-evaluated per value): rejected by TLC with a %d-state counterexample"
+             % len(mut.trace))
+    model["MaskDoIf"] = {"mechanism_states": res.distinct, "mutant_rejected": True, "mutant_trace_len": len(mut.trace)}
     ctx.extra["abstract_model"] = model
 
     # ---- 2. the real plugin: records
@@ -150,6 +162,10 @@ def run(ctx):
                 sm.get("stress_outcomes", 0)))
     if not ctx.replay and (sm.get("stress_runs", 0) < 2000 or sm.get("stress_outcomes", 0) < 24):
         raise vlib.Infra("stress family did not run: %s" % sm)
+    vlib.log("do_if-order family (a mask's do_if reads a field the plugin itself rewrites; field before / after / between "
+             "the secrets): %d runs" % sm.get("doif_order_runs", 0))
+    if not ctx.replay and sm.get("doif_order_runs", 0) < 200:
+        raise vlib.Infra("do_if-order family did not run: %s" % sm)
     if not files or sm["unique_records"] == 0:
         raise vlib.Infra("driver produced no records")
     if not ctx.replay and (sm["leaf"] < 20000 or sm["events"] < 1000 or sm["matched"] < 10000):
@@ -222,7 +238,7 @@ def run(ctx):
 
     # ---- 5. evidence
     ctx.evaluations = agg["records"]
-    ctx.traces_validated = sm["leaf"] + sm["events"] + sm.get("stress_runs", 0)
+    ctx.traces_validated = sm["leaf"] + sm["events"] + sm.get("stress_runs", 0) + sm.get("doif_order_runs", 0)
     ctx.nontrivial = sm["matched"] + sm["events"]
     ctx.exhaustive = thorough
     ctx.rule = ("record = one execution of the real Plugin.Do (started by the real Start): leaf records = curated regexp "
@@ -230,7 +246,9 @@ def run(ctx):
                 "{a,b,e-acute} up to length 4 (core; extended families: length 5%s, three-group regexps -- %s) x "
                 "{asterisks max_count 0/1/2, replace word, cut} x {string, number}; card / phone / name / e-mail shapes "
                 "from the repository tests; event records = nested objects / arrays / non-string leaves x 1-2 masks x "
-                "global and per-mask process / ignore lists x match rules; stress family = 4 instances started on ONE "
+                "global and per-mask process / ignore lists x match rules; do_if-order family = 1-2 masks whose do_if reads a "
+                "field that an earlier mask, a later mask or the mask itself rewrites x events with that field before / "
+                "after / between the secrets (later key, nested object, array); stress family = 4 instances started on ONE "
                 "shared config (do_if-guarded masks, match rules, own lists) run concurrently over events with alternating "
                 "do_if outcomes, one record per distinct (config, event, outcome). Every record is evaluated by TLC against "
                 "Mask.tla (identical records once). Non-trivial = the regexp matched (T non-empty; counted by the driver) "
@@ -254,8 +272,9 @@ def run(ctx):
         "selections only have to satisfy OutsideKept and SecretGone",
         "chains of two masks are judged where the first mask's result is uniquely determined; match rules are "
         "exercised on single-mask configurations (the statement does not say which value a later mask's rules see)",
-        "events are JSON objects; do_if of a mask is exercised with field-equal / not / or conditions only (its own "
-        "semantics belong to C14)",
+        "events are JSON objects; do_if of a mask is exercised with field equal / prefix / suffix / contains, not, or "
+        "conditions only (its own semantics belong to C14); its decision is demanded to be a function of the event as "
+        "it arrived (MaskDoIf.tla: evaluate-once mechanism accepted, per-value re-evaluation rejected)",
         "the stress family (instances sharing one config, concurrent Do) detects a sharing bug only if a harmful "
         "interleaving occurs during its bounded run (%d ms per config): detection is probabilistic, absence of an alarm "
         "is not a proof; on correct code each event has exactly one outcome, so it cannot raise a false alarm"
